@@ -67,3 +67,23 @@ Definition reply_item_norm (it : qitem) : list qitem :=
 
 Definition frames_with_idx (ops : list cop) : list (N * frame) :=
   snd (fold_left (fun '(i, acc) o => (i + 1, acc ++ map (fun f => (i, f)) (frames_of_op o))) ops (0, [])).
+
+(* Once the client has raised a protocol exception (its Connection.Close is queued, the phase is
+   ClientException) whatever else the server sends is ignored until the Close has gone out: a
+   frame processed in that phase - or behind the offending frame in the same read - is not an
+   error, and a read episode that ends with "would block" reports none (C07, C05: the root
+   cause stays ClientException) *)
+Definition stream_has_werr (w : option (list wr)) : bool :=
+  match w with Some l => existsb (fun x => match x with WErr => true | _ => false end) l | None => false end.
+Fixpoint exception_quiet (prev : N) (l : list (cop * cobs * digest)) : bool :=
+  match l with
+  | [] => true
+  | (o, b, d) :: l' =>
+      (if (prev =? 2) || ((prev =? 0) && (d_phase d =? 2)) then
+         match o, b with
+         | OFrame _, BOutcome out _ _ => outcome_eqb out OOk
+         | OEvent (EvStream w (Some (_, TBlock))), BOutcome out _ _ => stream_has_werr w || outcome_eqb out OOk
+         | _, _ => true
+         end
+       else true) && exception_quiet (d_phase d) l'
+  end.
